@@ -5,6 +5,7 @@ CONSTANTS
   MetaKeys = {"d"}
   Values = {"x"}
   AtomicSave = TRUE
+  CommitOnError = FALSE
   DropStaleIndex = TRUE
 INVARIANT Finish
 POSTCONDITION Consumed
